@@ -146,8 +146,11 @@ def cases(tier, seed, prop):
             w, want = gen_wnum(rnd, rnd.randint(1, 8), 0)
             out.append({'w': w, 'want': want, 'tpl': rnd.choice([0, 3]), 'c': rnd.choice([{}, {'options': {'output.format': False}}, {'syntax': 'jsx'}, {'syntax': 'vue'}]), 'g': 'text-num'})
         # a long list of lines: one copy per non-blank line has no small built-in ceiling
-        for cnt in (1500, 100001 if tier == 'quick' else 250001):
-            out.append({'wrap': 0, 'c': {'text': ['l%d' % i if i % 7 else '  ' for i in range(cnt)], 'options': {'output.format': False}}, 'g': 'wrap-large'})
+        # (the model's list-append loops are quadratic: beyond MODEL_MAX_LINES lines the case is judged by the oracle on the implementation
+        # only and counted as unmodelled)
+        for cnt in (1500, 120001 if tier == 'quick' else 250001):
+            out.append({'wrap': 0, 'c': {'text': ['l%d' % i if i % 7 else '  ' for i in range(cnt)], 'options': {'output.format': False}}, 'g': 'wrap-large',
+                        'nomodel': cnt > MODEL_MAX_LINES})
         # text with tabstops in front of children: the children stand at the first tabstop, every other character of the text stays
         for _ in range(n // 6):
             w, want = gen_wnum(rnd, rnd.randint(2, 9), 0)
@@ -224,7 +227,11 @@ def cases(tier, seed, prop):
     return out
 
 
+MODEL_MAX_LINES = 4000
+
+
 def req(case):
+    if case.get('nomodel'): return '%s;%s' % (hx('x'), cfgcodec.encode({}))
     return '%s;%s' % (hx(case['s']), cfgcodec.encode(mkcfg(case['c'])))
 
 
@@ -546,7 +553,12 @@ def oracle_C04_wrap(case, o):
         want = {4: '<div><p>%s</p></div>', 5: '<x>%s</x>', 6: '<div><span></span><span>%s</span></div>', 7: '<tr><td></td></tr><b>%s</b>', 11: '<div><hr>%s</hr></div>'}[k] % tx
     norm = lambda t: re.sub(r'\$\{\d+\}', '', t)      # tabstops of empty leaves / attributes (and the same shape inside supplied text, on both sides)
     got = norm(outp); want = norm(want)
-    if sq(got) != sq(want): return ['wrap| expand(%r, text=%r) = %r, expected (modulo white space) %r' % (case['s'], text, outp, want)]
+    if sq(got) != sq(want):
+        if len(outp) > 5000:
+            i = next((j for j in range(min(len(got), len(want))) if got[j] != want[j]), min(len(got), len(want)))
+            return ['wrap| expand(%r, text=<%d lines>): output of %d characters differs from the expected one (%d characters, %d copies) at offset %d: %r vs %r'
+                    % (case['s'], len(text), len(got), len(want), len(lines) if implicit else 1, i, got[max(0, i - 30):i + 30], want[max(0, i - 30):i + 30])]
+        return ['wrap| expand(%r, text=%r) = %r, expected (modulo white space) %r' % (case['s'], text, outp, want)]
     # "each containing that trimmed line": without formatting nothing but the trimmed line may stand inside the element, white space included
     if implicit and case['c'].get('options', {}).get('output.format') is False and got != want:
         return ['wrap-trim| expand(%r, text=%r) = %r, expected exactly %r' % (case['s'], text, outp, want)]
@@ -662,7 +674,15 @@ def cases_C14(tier, rnd):
     import sys, vlib
     if vlib.REPO not in sys.path: sys.path.insert(0, vlib.REPO)
     from emmet.snippets import markup_snippets, xsl_snippets, pug_snippets
+    from emmet.snippets import raw_markup_snippets, raw_xsl_snippets, raw_pug_snippets
     out = []
+    # every name of every entry AS WRITTEN in the snippet files (`a|b: definition`) expands like that entry's definition: two entries
+    # claiming the same short name are not hidden by reading the flattened table
+    for sy, raw in (('html', raw_markup_snippets), ('xsl', raw_xsl_snippets), ('pug', raw_pug_snippets)):
+        for k, v in raw.items():
+            for name in k.split('|'):
+                out.append({'s': name, 'alt': v, 'c': {'syntax': sy}, 'g': 'raw-entry'})
+                out.append({'s': 'p>' + name, 'alt': 'p>(' + v + ')', 'c': {'syntax': sy}, 'g': 'raw-entry'})
     tables = [('html', markup_snippets), ('xsl', dict(markup_snippets, **xsl_snippets)), ('pug', dict(markup_snippets, **pug_snippets))]
     for sy, tbl in tables:
         for k, v in tbl.items():
@@ -922,6 +942,7 @@ def run(case, prop):
 
 
 def compare(case, line, ml):
+    if case.get('nomodel'): return None
     return line == ml
 
 
